@@ -286,4 +286,107 @@ theorem parseUnsigned_4 (max a b c d : Nat) (ha : a < 10) (hb : b < 10) (hc : c 
   · simp only [parseDigits, isDigit_add a ha, isDigit_add b hb, isDigit_add c hc, isDigit_add d hd, if_true]
     rw [if_neg (by omega), if_neg (by omega), if_neg (by omega), if_neg (by omega)]
     congr 1; omega
+/-! ### print then parse -/
+
+theorem monthLen_le (L : Int) (hL : L ≤ 1) (m : Nat) : monthLen L m ≤ 31 := by
+  unfold monthLen; split <;> omega
+
+/-- the printed form as an explicit 20-byte list -/
+theorem display_eq (dt : DT) (hy : dt.year < 10000) (hm : dt.month < 100) (hd : dt.day < 100)
+    (hh : dt.hour < 100) (hmi : dt.minute < 100) (hs : dt.second < 100) :
+    display dt =
+      [48 + dt.year / 1000, 48 + dt.year / 100 % 10, 48 + dt.year / 10 % 10, 48 + dt.year % 10, 45,
+       48 + dt.month / 10, 48 + dt.month % 10, 45, 48 + dt.day / 10, 48 + dt.day % 10, 84,
+       48 + dt.hour / 10, 48 + dt.hour % 10, 58, 48 + dt.minute / 10, 48 + dt.minute % 10, 58,
+       48 + dt.second / 10, 48 + dt.second % 10, 90] := by
+  unfold display
+  rw [padZero4 _ hy, padZero2 _ hm, padZero2 _ hd, padZero2 _ hh, padZero2 _ hmi, padZero2 _ hs]
+  rfl
+
+theorem fromStr_display (dt : DT) (hv : Valid dt) (hy : dt.year ≤ 9999) :
+    fromStr (display dt) = .ok dt := by
+  have hv' := hv
+  obtain ⟨y, mo, d, h, mi, s⟩ := dt
+  unfold Valid at hv
+  simp only at hv hy
+  obtain ⟨a1, a2, a3, a4, a5, a6, a7, a8, a9⟩ := hv
+  have hd31 : (d : Int) ≤ 31 := Int.le_trans a6 (monthLen_le _ (leapI_range _).2 _)
+  rw [display_eq _ (by simp only; omega) (by simp only; omega) (by simp only; omega)
+    (by simp only; omega) (by simp only; omega) (by simp only; omega)]
+  simp only
+  generalize hL : [48 + y / 1000, 48 + y / 100 % 10, 48 + y / 10 % 10, 48 + y % 10, 45,
+       48 + mo / 10, 48 + mo % 10, 45, 48 + d / 10, 48 + d % 10, 84,
+       48 + h / 10, 48 + h % 10, 58, 48 + mi / 10, 48 + mi % 10, 58,
+       48 + s / 10, 48 + s % 10, 90] = L
+  have hasc : isAscii L = true := by
+    subst hL
+    unfold isAscii
+    simp only [List.all_cons, List.all_nil, Bool.and_true, Bool.and_eq_true, decide_eq_true_eq]
+    omega
+  have hshape : shapeOk L = true := by subst hL; rfl
+  have hlen : L.length = 20 := by subst hL; rfl
+  unfold fromStr
+  rw [decode_ascii L hasc]
+  simp only
+  rw [if_pos (by rw [hasc, hshape]; rfl)]
+  unfold fromStrBody
+  rw [sliceStr_ascii L hasc 0 4 (by omega) (by omega), sliceStr_ascii L hasc 5 7 (by omega) (by omega),
+    sliceStr_ascii L hasc 8 10 (by omega) (by omega), sliceStr_ascii L hasc 11 13 (by omega) (by omega),
+    sliceStr_ascii L hasc 14 16 (by omega) (by omega), sliceStr_ascii L hasc 17 19 (by omega) (by omega)]
+  subst hL
+  simp only [List.drop, List.take, Nat.reduceSub]
+  rw [parseUnsigned_4 U32_MAX _ _ _ _ (by omega) (by omega) (by omega) (by omega) (by unfold U32_MAX; omega),
+    parseUnsigned_2 255 _ _ (by omega) (by omega) (by omega),
+    parseUnsigned_2 255 _ _ (by omega) (by omega) (by omega),
+    parseUnsigned_2 255 _ _ (by omega) (by omega) (by omega),
+    parseUnsigned_2 255 _ _ (by omega) (by omega) (by omega),
+    parseUnsigned_2 255 _ _ (by omega) (by omega) (by omega)]
+  simp only
+  have ey : ((y / 1000 * 10 + y / 100 % 10) * 10 + y / 10 % 10) * 10 + y % 10 = y := by omega
+  have e2 : ∀ n : Nat, n / 10 * 10 + n % 10 = n := fun n => by omega
+  rw [ey, e2, e2, e2, e2, e2]
+  have hn := (new_ok_iff y mo d h mi s (by unfold U32_MAX; omega) ⟨y, mo, d, h, mi, s⟩).2 ⟨rfl, hv'⟩
+  rw [hn]
+/-! ### accepted strings denote valid date-times -/
+
+theorem parseDigits_le (max : Nat) (bs : List Nat) (acc v : Nat) (h : parseDigits max bs acc = some v)
+    (ha : acc ≤ max) : v ≤ max := by
+  induction bs generalizing acc with
+  | nil => unfold parseDigits at h; cases h; exact ha
+  | cons b rest ih =>
+    unfold parseDigits at h
+    split at h
+    · simp only at h
+      split at h
+      · cases h
+      · exact ih _ h (by omega)
+    · cases h
+
+theorem parseUnsigned_le (max : Nat) (s : List Nat) (v : Nat) (h : parseUnsigned max s = some v) : v ≤ max := by
+  unfold parseUnsigned at h
+  split at h
+  · cases h
+  · cases h
+  · cases h
+  · exact parseDigits_le max _ 0 v h (by omega)
+  · exact parseDigits_le max _ 0 v h (by omega)
+
+theorem fromStrBody_ok_valid (s : List Nat) (dt : DT) (h : fromStrBody s = .ok dt) : Valid dt := by
+  unfold fromStrBody at h
+  repeat' split at h
+  all_goals first
+    | (cases h; done)
+    | skip
+  cases h
+  have hyle := parseUnsigned_le U32_MAX _ _ ‹parseUnsigned U32_MAX _ = some _›
+  have := (new_ok_iff _ _ _ _ _ _ hyle _).1 ‹new _ _ _ _ _ _ = Except.ok _›
+  rw [this.1]; exact this.2
+
+theorem fromStr_ok_valid (s : List Nat) (dt : DT) (h : fromStr s = .ok dt) : Valid dt := by
+  unfold fromStr at h
+  split at h
+  · cases h
+  · split at h
+    · exact fromStrBody_ok_valid s dt h
+    · cases h
 end Radix.Utc
